@@ -910,6 +910,13 @@ func (n *RegexNode) canBeMadeAtomic(subsequent *RegexNode, iterateNullableSubseq
 			return false
 		}
 
+		// The comparisons below assume left-to-right matching (the first character of a Multi is the next one
+		// matched, an end anchor can't hold in front of one of the loop's characters).  Ending-backtracking
+		// removal reaches loops inside lookbehinds, e.g. (?<=(?:a*ba){2}).
+		if n.Options&RightToLeft != 0 {
+			return false
+		}
+
 		// If the successor is an alternation, all of its children need to be evaluated, since any of them
 		// could come after this node.  If any of them fail the optimization, then the whole node fails.
 		// This applies to expression conditionals as well, as long as they have both a yes and a no branch (if there's
